@@ -33,7 +33,7 @@ CHECKS['C09'] = dict(
         'no duplicate, nothing invented, per-producer FIFO, no dereference of the invalid-page marker) with the constant FIXED probed from the code. '
         'Histories (Inv/Res) of the real concurrent_queue and concurrent_bounded_queue - four page-size classes, capacities 1-3, blocking push/pop, '
         'try variants, abort, negative-size states - recorded under seeded random cooperative schedules at atomic-access granularity with a '
-        'stuck detector, and under injected faults (the k-th page allocation / element copy throws; each case in a forked child, a crash is an event), '
+        'stuck detector, and under injected faults (the k-th page allocation / element copy throws; each case in a forked child, a crash is an event; concurrent poppers behind an invalid entry under 150 schedules per fault position), '
         'are checked for linearizability against QueueAbs by TLC (unlogged internal Lin steps). The real-code schedules are sampled, not enumerated.',
    note='schedules of the real-code part are seeded random (not TLC-enumerated); sequentially consistent; 2-4 threads, <= 7 ops per thread; known finding: aborted push leaves a phantom slot (DESIGN 6.9)',
    technique='PlusCal protocol spec checked by TLC + TLC linearizability validation of recorded real histories (incl. fault injection) against QueueAbs',
@@ -208,7 +208,7 @@ CHECKS['C15'] = dict(
         'queue_node reservations (try_reserve / try_release / try_consume / try_get from three threads): nothing lost, nothing taken twice; overwrite_node / write_once_node: '
         'every successor, also one attached concurrently, ends with the latest / gets exactly the first value; split_node / indexer_node routing; join_node queueing / reserving: the i-th tuple is the i-th message of every port; key_matching: equal keys, every message '
         'used once; the number of complete tuples - are validated by TLC (TraceFlow) on recorded executions of the real nodes fed by 3 external putters (sequence numbers in 4 '
-        'permutations, thresholds 1 and 2 with the decrement sent from the successor body, ports of unequal length) and observed at a serial sink, under seeded random / PCT '
+        'permutations, thresholds 1 and 2 with the decrement sent from the successor body, ports of unequal length, a duplicate key offered to one key-matching port) and observed at a serial sink, under seeded random / PCT '
         'cooperative schedules.',
    note='schedules sampled; buffer_node (unordered) and key_matching with more than two ports are not driven; item_buffer ring arithmetic is exercised through queue / sequencer / priority nodes only',
    technique='TLA+ function spec (ItemBuffer) with transition-complete replay on the real class + protocol model (Limiter) checked by TLC + TLC trace validation of recorded executions of real flow-graph nodes against FlowAbs / BufAbs',
